@@ -38,3 +38,11 @@ macro_rules! interpose {
         }
     };
 }
+
+/// run `f` on a fresh OS thread whose std hash keys derive from `seed` (each such execution is exactly replayable)
+pub fn with_hash_seed<T: Send>(seed: u64, f: impl FnOnce() -> T + Send) -> T {
+    std::thread::scope(|s| {
+        let h = std::thread::Builder::new().stack_size(64 << 20).spawn_scoped(s, move || { set_hash_seed(seed); f() }).expect("spawn");
+        match h.join() { Ok(v) => v, Err(e) => std::panic::resume_unwind(e) }
+    })
+}
